@@ -163,7 +163,7 @@ def handle (j : Json) : Except String Json := do
     for r in recs do
       match ← buildRecipe r with
       | .ok g => graphs := graphs.push g
-      | .error _ => throw "graph pool entry not constructible"
+      | .error _ => return (Json.mkObj [("err", .str "Other")])   -- the model declines this pool (outside its domain)
     let opsJ ← (← j.getObjVal? "ops").getArr?
     let mut fs : FS := { content := none, openHandles := 0 }
     let mut outs : Array Json := #[]
